@@ -24,6 +24,8 @@ def _ast_to_dict(doc):
             return [convert_value(item) for item in value.items]
         elif isinstance(value, InlineMap):
             return {k: convert_value(v) for k, v in value.pairs.items()}
+        elif isinstance(value, dict):
+            return {k: convert_value(v) for k, v in value.items()}
         elif isinstance(value, HolographicValue):
             return value.raw_pattern
         return value
